@@ -145,3 +145,17 @@ _bls("C17", ["Props.C17"],
      "Lean 4 proof (exact characterisation of SPOCKVerify) + differential run",
      "Theorems: spock_iff (true iff both proofs canonical G1 encodings, no identity key, e(p1,pk2)=e(p2,pk1)), symmetry, honest proofs verify, other data rejected, common scaling, rejection catalogue, agreement with Verify.",
      "Lean kernel + correspondence")
+
+CONFIG["C12"] = dict(
+    lean_modules=["Props.C12"],
+    generators=["C12"],
+    level="proof",
+    rule="BLS, P-256, secp256k1: every seed length 0..300 x contents {zeros, ones, random (thorough: 38 random)}, nil seed, single-bit variations; private and public key bytes compared with the model's own "
+         "HKDF-SHA256 / mapToFr / scalar multiplication; determinism and PublicKey() caching consistency evaluated on the implementation",
+    trusted_base=COMMON_TB + ["modelled, not verified: Go crypto/hkdf, crypto/sha256 (compared with Model.Sha2, itself KAT-checked), BLST/ecdh/btcec scalar multiplication"],
+    technique="Lean 4 proof (mapToFr = OS2IP mod r for every length; key ranges; seed guards) + differential run vs own HKDF/curve arithmetic",
+    level_text="Theorems for all seeds: map_bytes_to_Fr equals big-endian reduction mod r for every input length (induction over the digit loop); BLS key in [1,r-1], ECDSA key in [1,n-1]; "
+               "seed length guard; guards and constants tied to the code. That HKDF output equals RFC 5869 is by KAT + correspondence.",
+    level_note="Lean kernel + correspondence; the BLS retry loop is modelled with fuel 16 (never exercised: probability 2^-255 per iteration)",
+    assumptions=["the retry loop of BLS KeyGen terminates within 16 iterations"],
+)
